@@ -20,8 +20,8 @@ fn dec_cps(s: &str) -> String {
     }
 }
 
-const SLOTNAMES: [&str; 10] = ["x", "y", "z", "0", "1", "7", "f0", "f3", "in", "k2"];
-const PVARS: [&str; 6] = ["a", "b", "body", "x1", "e", "f"];
+const SLOTNAMES: [&str; 13] = ["x", "y", "z", "0", "1", "7", "f0", "f3", "in", "k2", "ä", "éa", "xλ"];
+const PVARS: [&str; 8] = ["a", "b", "body", "x1", "e", "f", "é", "aß"];
 
 fn gen_lit(ty: &str, rng: &mut Rng, tricky: bool) -> String {
     if tricky && ty == "sym" {
@@ -35,7 +35,7 @@ fn gen_lit(ty: &str, rng: &mut Rng, tricky: bool) -> String {
         "i64" => ["-1", "-77", "-9223372036854775808"][rng.below(3)].to_string(),
         "bool" => ["true", "false"][rng.below(2)].to_string(),
         "char" => ["a", "Z", "q", "λ"][rng.below(4)].to_string(),
-        _ => ["ab", "bb", "foo", "map", "x1", "zero"][rng.below(6)].to_string(),
+        _ => ["ab", "bb", "foo", "map", "x1", "zero", "café", "éa", "ñ"][rng.below(9)].to_string(),
     }
 }
 
